@@ -362,5 +362,13 @@ def null_terminated(ctx, fi, paths, rule="C08.R2"):
             elif N.mk_not(req) in g:
                 seen.add("eof-lenient")
                 ctx.ob(rule, fi, p.returns, "without require, end of stream ends the region", key="NT not require")
+                # no terminator was found on this path: the region is what was collected (no terminator appended, whatever `include` says),
+                # and the stream stays at its end (no step back, whatever `consume` says)
+                new = [e for e in p.events if e.kind == "NEWSTREAM"]
+                data = new[0]["args"][0] if new and new[0]["args"] else None
+                ci = p.index(next(e for e in p.events if e.kind == "CATCH"))
+                moved = [e for e in p.events[ci:] if e.kind == "SEEK" and e["stream"] == STREAM]
+                clean = data is not None and not N.contains(data, term) and not any(x[0] == "read" for x in N.walk(data))
+                ctx.ob(rule, fi, p.returns and clean and not moved, "when the stream ends before a terminator is found, nothing is appended to the region and the stream is not stepped back", key="NT eof leaves region and stream alone")
     ctx.ob(rule, fi, len([s for s in seen if isinstance(s, tuple)]) == 4 and "eof-require" in seen and "eof-lenient" in seen,
            "all include/consume combinations and both EOF policies were analysed (%s)" % sorted(map(str, seen)), key="NT coverage")
